@@ -39,6 +39,29 @@ def main():
     out = os.path.join(HERE, "seeded", prop)
     os.makedirs(out, exist_ok=True)
     env = dict(os.environ, PYTHONPATH=os.path.join(wt, "src"))
+    if "--rerun" in args:
+        # run the checks again (after they were strengthened) and keep the first result
+        mp = os.path.join(out, "meta.json")
+        meta = json.load(open(mp))
+        meta.setdefault("checks_first_run", meta.get("checks"))
+        meta.setdefault("caught_by_first_run", meta.get("caught_by"))
+        meta["checks"] = {}
+        for c in checks:
+            e = dict(os.environ, VERIF_REPO=wt)
+            p = subprocess.run([os.path.join(HERE, "check"), c, "--tier", "quick", "--no-evidence", "--budget", budget], capture_output=True, text=True, env=e, cwd=HERE)
+            sigs = re.findall(r"signature=(\S+)", p.stdout)
+            for f in re.findall(r"replay=(\S+)", p.stdout):
+                try:
+                    os.unlink(f)
+                except OSError:
+                    pass
+            meta["checks"][c] = {"rc": p.returncode, "signatures": sigs[:10], "summary": p.stdout.strip().splitlines()[-1][:300] if p.stdout.strip() else ""}
+            print("check", c, "rc", p.returncode, sigs[:4])
+        meta["caught_by"] = [c for c, v in meta["checks"].items() if v["rc"] == 1]
+        meta["note"] = "checks re-run after the generators were widened (see DESIGN.md section 10); checks_first_run keeps the first result"
+        json.dump(meta, open(mp, "w"), indent=1)
+        print("refiled", out, "caught_by", meta["caught_by"])
+        return 0
     rc, diff = sh("git diff", cwd=wt)
     if not diff.strip():
         print("no change in", wt)
@@ -59,11 +82,16 @@ def main():
             meta["rejected"] = "existing test suite does not pass with the change"
     # 2. demo with / without
     rc_with, o_with = sh("/venv/bin/python %s" % demo, cwd=wt, env=env, timeout=600)
+    touches_c = any(f.endswith(".c") for f in meta["patch_files"])
     sh("git stash -q", cwd=wt)
     try:
+        if touches_c:
+            sh("/venv/bin/python setup.py build_ext --inplace", cwd=wt)
         rc_without, o_without = sh("/venv/bin/python %s" % demo, cwd=wt, env=env, timeout=600)
     finally:
         sh("git stash pop -q", cwd=wt)
+        if touches_c:
+            sh("/venv/bin/python setup.py build_ext --inplace", cwd=wt)
     meta["ran"]["demo_with_change_rc"] = rc_with
     meta["ran"]["demo_without_change_rc"] = rc_without
     meta["ran"]["demo_with_change_output_tail"] = o_with.strip()[-400:]
